@@ -10,6 +10,7 @@ namespace C06D
 /-- the memoised methods the harness drives through the model (indices are the protocol's method ids):
   0 `_items_list(include_nested, leaves_only)`   1 `_values_list(include_nested, leaves_only)`
   2 `sorted_keys`   3 `_depth()`   4 `flatten_keys(".")` (allocates)   5 lazy `_key_list()`
+  7 lazy `_get_str(key, None)` for a key bound to tensordicts in the members (lazy-stack entry access)
   6 `_nested_keys(include_nested, leaves_only, is_leaf)` with an `is_leaf` callable keyed by address
     (objects with an odd identity treat every tensor collection as a leaf)
   identities ≥ 500000 are non-tensor entries: tensor collections without tensor leaves, invisible to `leaves_only` reads -/
@@ -32,6 +33,15 @@ def keyList (c : Content) : Content :=
   | [] => []
   | m0 :: rest => ((keysOf m0).filter (fun k => rest.all (fun m => (keysOf m).contains k))).eraseDups.map (fun k => ([k], Ent.leaf 0))
 
+/-- lazy `_get_str(key)`: the entries of the members under `key` (paths `[member, key]`), or nothing (the `default`) when a
+member lacks the key -/
+def lazyGet (key : String) (c : Content) : Content :=
+  let members := (c.filterMap (fun p => match p.1 with | [m] => some m | _ => none)).eraseDups
+  let hits := c.filter (fun p => match p.1 with | [_, k] => k == key | _ => false)
+  if members.all (fun m => hits.any (fun p => p.1.head? == some m)) then hits else []
+
+def kidKey (n : Nat) : String := match n with | 0 => "k0" | 1 => "k1" | _ => "k2"
+
 /-- prune below the nodes when `is_leaf` says a tensor collection is a leaf -/
 def stopAtNodes (c : Content) : Content :=
   c.filter (fun p => p.1.length == 1)
@@ -43,6 +53,7 @@ def sem : Sem where
     | (2, _) => dropIds (c.filter (keep 0 0))
     | (3, _) => [([], Ent.leaf (maxLen (c.filter (fun p => match p.2 with | .leaf _ => true | .node _ => false))))]   -- `is_leaf=_is_leaf_nontensor`
     | (5, _) => keyList c
+    | (7, [.val k]) => lazyGet (kidKey k) c
     | (6, [.val a, .val b, .obj o]) =>
         if o % 2 == 1 then dropIds (c.filter (fun p => a != 0 || p.1.length == 1))   -- `is_leaf ≡ True`: every entry counts
         else dropIds (c.filter (keep a b))
